@@ -174,7 +174,7 @@ CHECKS["C15"] = {"pkg": "netsim", "test": "TestC15", "level": "exploration",
             "informer events through the real handlers, and prior kernel state (foreign chains/sets, stale GLX sets, stale GLX policy "
             "chains, a stale pod chain still referencing a stale policy chain). Oracle on the strict fakes: no rejected batch, non-GLX "
             "chains/rules/sets unchanged after every call, full sync of B == full sync of B on empty tables (canonical form), second full "
-            "sync changes nothing. Confirmed findings (known_findings.txt K1-K4) are classified by signature, counted and skipped. "
+            "sync changes nothing. The remaining confirmed finding (known_findings.txt K1; K2-K4 are repaired) is classified by signature, counted and skipped. "
             "Non-trivial = B differs from A in >=1 policy and >=1 pod and stale GLX garbage had to be removed.",
     "assumptions": E3_ASSUME + ["one ipBlock peer per rule (several are merged into one set with conflicting elements, reported under C16)",
                                 "whether ipset 'add -exist' overwrites the nomatch flag is not settled; the fake keeps the existing element"],
@@ -188,7 +188,7 @@ CHECKS["C16"] = {"pkg": "netsim", "test": "TestC16", "level": "exploration",
             "syncs); then the flow universe is enumerated exhaustively per case: src,dst in pods + external addresses inside/outside every "
             "block and except, tcp/udp, every mentioned port + one other, for all flows touching a local pod. Oracle: the packet walker's "
             "verdict on the installed tables vs a reference evaluator written from the Kubernetes API documentation. A mismatch that a "
-            "recorded deviation (known_findings.txt DE,DA,DC,DS,DF,DM,DZ,Dcombined) explains is counted under that finding; any other "
+            "recorded deviation (known_findings.txt DS,DF,DM,Dcombined; DE,DA,DC,DZ are repaired and excuse nothing any more) explains is counted under that finding; any other "
             "mismatch is a violation. evaluations = clusters; coverage.extra.flows = flows judged. Non-trivial = >=1 isolated local pod "
             "and both ACCEPT and DROP verdicts occur.",
     "assumptions": E3_ASSUME + ["new-connection packets on the FORWARD hook (pod-to-pod and pod-to-external traffic through this node); conntrack RELATED,ESTABLISHED never matches a first packet",
